@@ -121,8 +121,10 @@ def _apply_site_rewrites(text, rws, log, fnkey):
         if rw.balanced:
             # the regex ends at an opening brace: the replacement covers everything up to its matching close
             n = 0
+            pos = 0
+            rx = re.compile(rw.pat, flags=re.S)
             while True:
-                m = re.search(rw.pat, text, flags=re.S)
+                m = rx.search(text, pos)
                 if not m:
                     break
                 ob = m.end() - 1
@@ -130,7 +132,9 @@ def _apply_site_rewrites(text, rws, log, fnkey):
                     raise LostAnchor('%s: balanced rewrite must end at an opening brace: %r' % (fnkey, rw.pat[:60]))
                 toks = lex(text[ob:])
                 cb = ob + toks[match_close(toks, 0)][3]
-                text = text[:m.start()] + m.expand(rw.rep) + text[cb:]
+                rep = m.expand(rw.rep)
+                text = text[:m.start()] + rep + text[cb:]
+                pos = m.start() + len(rep)
                 n += 1
                 if rw.count and n >= rw.count:
                     break
